@@ -9,6 +9,8 @@ import (
 type GlobalEnvironment struct {
 	Root *Module
 	Init bool // Whether the global environment is in its initialisation stage
+	// copies of anonymous mixins made by DeepCopyEnv into this environment, keyed by the original
+	anonymousMixinCopies map[*Mixin]*Mixin
 }
 
 func (g *GlobalEnvironment) NamesToType(path ...value.Symbol) Type {
